@@ -40,7 +40,7 @@ PROPS = {
     ),
 }
 
-ENGINES = {'e2e': vlib.e2e_engine, 'store': vlib.store_engine, 'atomic': vlib.atomic_engine, 'encrypt': vlib.encrypt_engine, 'swr': vlib.swr_engine, 'conc': vlib.conc_engine, 'bytes': vlib.bytes_engine, 'lateinval': vlib.lateinval_engine, 'overlap': vlib.overlap_engine, 'realclock': vlib.realclock_engine}
+ENGINES = {'e2e': vlib.e2e_engine, 'store': vlib.store_engine, 'atomic': vlib.atomic_engine, 'encrypt': vlib.encrypt_engine, 'swr': vlib.swr_engine, 'conc': vlib.conc_engine, 'bytes': vlib.bytes_engine, 'lateinval': vlib.lateinval_engine, 'overlap': vlib.overlap_engine, 'realclock': vlib.realclock_engine, 'scenario': vlib.scenario_engine}
 
 
 def _e2e(profiles, monitors, projection, nq=1500, nt=20000, extra=None):
@@ -146,5 +146,7 @@ PROPS['C19']['e2e'].append(dict(profile='inval', n_quick=500, n_thorough=5000))
 
 PROPS['C01']['engines'] = ['e2e', 'realclock']
 PROPS['C11']['engines'] = PROPS['C11'].get('engines', ['e2e']) + ['realclock']
+for _p in ('C07', 'C09', 'C17', 'C19'):
+    PROPS[_p]['engines'] = PROPS[_p].get('engines', ['e2e']) + ['scenario']
 PROPS['C01']['rule'] += ('; plus TestRealClock: responses received with a saturating Age (2^63 ns and more) and a stale-while-revalidate / max-age / request max-stale / min-fresh '
                          'combination, requested again with the real clock (between two clock readings of one RoundTrip a few nanoseconds pass, which inside the virtual-time bubble they do not)')
